@@ -76,6 +76,11 @@ def scan(state, groups, tid):
     res = par.get("tables", 2001) if "tables" in par else 2001
     kw.pop("tables", None)
     kw.update(num_x_pts=res, num_int_pts=res)
+    if not jwl:
+        # the table window follows the membrane and grows with the time (self-similar: the same number of cells per wave);
+        # for the standard membrane at t = 0.3 it is the documented default [0, 1]
+        W = 0.5 * max(1.0, t / 0.3)
+        kw.setdefault("xmin", kw.get("xd0", 0.5) - W); kw.setdefault("xmax", kw.get("xd0", 0.5) + W)
     with contextlib.redirect_stdout(io.StringIO()):
         s = GenEOS_Solver(**kw)
     xd0 = kw.get("xd0", 0.5)
